@@ -68,12 +68,16 @@ def _jlog(e):
         _J[-1].append(e)
 
 
+_EPOCH = [0]     # incremented by harnesses at every engine set-up: lets process-lifetime storage be aged
+
+
 class Box:
-    __slots__ = ("v", "name")
+    __slots__ = ("v", "name", "epoch")
 
     def __init__(self, v=None, name=""):
         self.v = v
         self.name = name
+        self.epoch = _EPOCH[0]
 
     def get(self):
         return self.v
@@ -81,6 +85,7 @@ class Box:
     def set(self, v):
         _jlog((0, self, self.v))
         self.v = v
+        self.epoch = _EPOCH[0]
 
 
 class Vec:
@@ -297,6 +302,11 @@ class Interp:
         self.linearize_uniform = True
         self.lazy_merge = True
         self.loop_hook = None       # callable(I, node, cond, body) -> True if the harness handled the loop itself
+        self.statics = {}           # function-local statics: decl id -> Box (one per process)
+        self.static_const = {}
+        self.stale_reads = []       # reads of process-lifetime storage last written during an EARLIER set-up epoch
+        self.fresh_globals = set()
+        _EPOCH[0] = 0
         self.uniform_syms = set()
         self.nomerge = set()
         self.havocs = []
@@ -682,6 +692,11 @@ class Interp:
             return ("uiud", (Fraction(0), Fraction(1)))
         return None  # scalars and pointers: indeterminate
 
+    def new_epoch(self):
+        """harness hook: a new engine set-up begins (everything written before belongs to an earlier simulation)"""
+        _EPOCH[0] += 1
+        self.fresh_globals = set()
+
     def new_obj(self, cname):
         if cname not in self.P.classes:
             raise Unsupported("new of unknown class " + cname)
@@ -713,6 +728,7 @@ class Interp:
             v = Ptr(None) if "*" in q else (False if q == "bool" else (Fraction(0) if q == "double" else 0))
         b = Box(v, gd.get("name", ""))
         self.globals[did] = b
+        self.fresh_globals.add(did)      # first touched now: its static initial value is not history
         return b
 
     # ------------------------------------------------------------------ calls
@@ -781,6 +797,18 @@ class Interp:
                     raise Unsupported("DeclStmt/" + d["kind"])
                 init = [c for c in d.get("inner", []) if c.get("kind") not in ("FullComment",)]
                 q = d["type"]["qualType"]
+                if d.get("storageClass") == "static":
+                    # function-local static: initialised once per process, then shared by every call
+                    if d["id"] not in self.statics:
+                        v0 = self.val(init[0]) if init else self.default_value(q)
+                        if isinstance(v0, Vec):
+                            v0 = v0.copy()
+                            v0.name = d.get("name", "")
+                        b0 = Box(v0, d.get("name", ""))
+                        self.statics[d["id"]] = b0
+                        self.static_const[d["id"]] = q.strip().startswith("const")
+                    self.frame[d["id"]] = self.statics[d["id"]]
+                    continue
                 if init:
                     v = self.rvalue(init[0])
                     if q.rstrip().endswith("&"):
@@ -985,6 +1013,24 @@ class Interp:
             raise Unsupported("enum constant")
         raise Unsupported("DeclRefExpr/" + dk)
 
+    def _stale_check(self, node):
+        """node is used as a VALUE: if it names process-lifetime storage last written in an earlier set-up epoch, record it"""
+        while node.get("kind") in ("ImplicitCastExpr", "ParenExpr") and node.get("castKind") in (None, "NoOp"):
+            node = node["inner"][0]
+        if node.get("kind") != "DeclRefExpr":
+            return
+        d = node["referencedDecl"]
+        if d.get("kind") != "VarDecl":
+            return
+        did = d["id"]
+        if did in self.statics and did in self.frame:
+            b = self.statics[did]
+            if not self.static_const.get(did) and b.epoch < _EPOCH[0]:
+                self.stale_reads.append((d.get("name", "?"), self.where(node), "function-local static"))
+        elif did in self.globals and did not in self.frame:
+            if self.globals[did].epoch < _EPOCH[0] and did not in self.fresh_globals:
+                self.stale_reads.append((d.get("name", "?"), self.where(node), "global"))
+
     def _deref(self, base, node):
         obj = base.target if isinstance(base, Ptr) else base
         if isinstance(base, Ptr) and obj is None:
@@ -1013,6 +1059,7 @@ class Interp:
         sub = n["inner"][0]
         if ck == "LValueToRValue":
             v = self.rvalue(sub)
+            self._stale_check(sub)
             if hasattr(v, "get"):
                 r = v.get()
                 if r is None:
@@ -1375,6 +1422,8 @@ class Interp:
         name = callee["referencedDecl"]["name"]
         objr = self.rvalue(n["inner"][1])
         obj = objr.get() if hasattr(objr, "get") else objr
+        if name != "operator=":
+            self._stale_check(n["inner"][1])
         if name == "operator[]":
             if isinstance(obj, Vec):
                 return ElemRef(obj, self.val(n["inner"][2]), self, n)
